@@ -336,6 +336,9 @@ impl CodegenContext {
         self.segments.values_mut().for_each(|s| s.reset());
         self.test_elements.clear();
         self.source_map.clear();
+        // What an identifier refers to may differ between passes (e.g. a name that resolved to an outer symbol while
+        // the inner label did not exist yet), so the definitions and usages of earlier passes have to go as well
+        self.analysis = Analysis::new(self.tree.clone());
     }
 
     fn try_current_target_pc(&self) -> Option<ProgramCounter> {
